@@ -21,7 +21,8 @@ From Coq Require Import List NArith Bool.
 From FS Require Import Sx Model.Path Model.Stat Model.Tree Model.Pattern Model.FilterWalk
   Model.Hardlinks Model.Validator Model.Diff Model.AbsDest Model.SenderView
   Proofs.PatternP Proofs.HardlinksP Proofs.WitnessP Proofs.RefValidP Proofs.TrimP Proofs.SenderViewP
-  Proofs.SenderTransferP Proofs.C11WitnessP.
+  Proofs.SenderTransferP Proofs.C11WitnessP Proofs.FilterOptP Model.FilterOpt.
+From FS Require Model.FollowLinks.
 Import ListNotations.
 
 (* ---- the hard-link reset, on any listing the filters can leave ----
@@ -193,7 +194,39 @@ Theorem filtered_transfer_late_shadow_refuted :
     ~ view_equiv (alookup q (ds_map r)) (efind q (filtered_entries pmatch mapfn c view)).
 Proof. exact transfer_late_shadow_refuted_proof. Qed.
 
+(* ---- the include list NewFilterFS assembles (Model/FilterOpt.v) ----
+   IncludePatterns and the targets FollowPaths resolve to (C18's model of FollowLinks) become ONE
+   order-sensitive list: the user's patterns in order, then the targets.  What the code hands to
+   the matcher is a SUB-SEQUENCE of that list — same relative order, never sorted —, and the
+   user's list itself when there are no FollowPaths (or "." was resolved). *)
+Theorem include_list_keeps_order :
+  forall view inc follow l,
+    assemble_includes view inc follow = FollowLinks.Ok l ->
+    (follow = [] /\ l = inc) \/
+    (follow_targets view follow = FollowLinks.Ok None /\ l = inc) \/
+    (exists ts, follow_targets view follow = FollowLinks.Ok (Some ts) /\ rsub eq l (inc ++ ts)).
+Proof. exact assemble_keeps_order. Qed.
+
+(* ... but NOT an equivalent one: dedupePaths drops every element that is textually below an
+   element kept before it, whatever stands in between.  IncludePatterns [a, !a/x, a/x/y] reports
+   and opens a/x/y; add the unrelated FollowPaths [l] (l -> t) and a/x/y is dropped "below a":
+   the file disappears from the walk, from Open and from the transfer.  (Likewise a follow target
+   below an included directory from which an exception carved it out is never re-included.)
+   Finding dedupe-order-sensitive-includes, replayed on the real code: corpus/C11. *)
+Theorem assembled_includes_not_equivalent_refuted :
+  exists view inc follow la ls ca cs p,
+    wf_source view = true /\
+    assemble_includes view inc follow = FollowLinks.Ok la /\
+    stated_includes view inc follow = FollowLinks.Ok ls /\
+    mk_cfg la [] = Some ca /\ mk_cfg ls [] = Some cs /\
+    source_file view p = true /\
+    filter_open pm_lit ca p <> filter_open pm_lit cs p /\
+    reported pm_lit id_map ca view p <> reported pm_lit id_map cs view p.
+Proof. exact assembled_not_stated_refuted_proof. Qed.
+
 Print Assumptions reset_links_valid.
+Print Assumptions include_list_keeps_order.
+Print Assumptions assembled_includes_not_equivalent_refuted.
 Print Assumptions reset_eq_spec.
 Print Assumptions reset_representative.
 Print Assumptions reference_is_wf_listing.
@@ -254,6 +287,12 @@ Example ex_sender_view :
   /\ run_validator (items (sender_view pm_lit id_map hl_cfg hl_view)) = None
   /\ hardlink_check (sender_view pm_lit id_map hl_cfg hl_view) = None
   /\ hardlink_check (filter_walk pm_lit id_map hl_cfg hl_view) = Some 0%nat.   (* without the reset: rejected *)
+Proof. vm_compute. repeat split; reflexivity. Qed.
+(* the include list NewFilterFS assembles: user patterns in order, then the follow targets *)
+Example ex_include_assembly :
+  assemble_includes dd_view [bs "!a/x"; bs "a"] [bs "l"] = FollowLinks.Ok [bs "!a/x"; bs "a"; bs "l"; bs "t"]
+  /\ assemble_includes dd_view dd_inc [] = FollowLinks.Ok dd_inc
+  /\ assemble_includes dd_view dd_inc dd_follow = FollowLinks.Ok [bs "a"; bs "!a/x"; bs "l"; bs "t"].
 Proof. vm_compute. repeat split; reflexivity. Qed.
 (* walk and Open on the files of that source *)
 Example ex_walk_open :
